@@ -631,6 +631,25 @@ def mkOr : List Nid → Prog Nid := mkNary NT.OR (pure falseId)
 def mkPlus : List Nid → Prog Nid := mkNary NT.PLUS (failP .typeError)
 def mkTimes : List Nid → Prog Nid := mkNary NT.TIMES (failP .typeError)
 
+/-! relations: `GE`/`GT` (and the bit-vector `UGT/UGE/SGT/SGE`) are the swapped `LE`/`LT` -/
+def mkLE (a b : Nid) : Prog Nid := mkPlain NT.LE [a, b]
+def mkLT (a b : Nid) : Prog Nid := mkPlain NT.LT [a, b]
+def mkGE (a b : Nid) : Prog Nid := mkPlain NT.LE [b, a]
+def mkGT (a b : Nid) : Prog Nid := mkPlain NT.LT [b, a]
+def mkEquals (a b : Nid) : Prog Nid := mkPlain NT.EQUALS [a, b]
+def mkIff (a b : Nid) : Prog Nid := mkPlain NT.IFF [a, b]
+def mkBVULT (a b : Nid) : Prog Nid := mkPlain NT.BV_ULT [a, b]
+def mkBVULE (a b : Nid) : Prog Nid := mkPlain NT.BV_ULE [a, b]
+def mkBVUGT (a b : Nid) : Prog Nid := mkPlain NT.BV_ULT [b, a]
+def mkBVUGE (a b : Nid) : Prog Nid := mkPlain NT.BV_ULE [b, a]
+def mkBVSLT (a b : Nid) : Prog Nid := mkPlain NT.BV_SLT [a, b]
+def mkBVSLE (a b : Nid) : Prog Nid := mkPlain NT.BV_SLE [a, b]
+def mkBVSGT (a b : Nid) : Prog Nid := mkPlain NT.BV_SLT [b, a]
+def mkBVSGE (a b : Nid) : Prog Nid := mkPlain NT.BV_SLE [b, a]
+
+/-- `_Algebraic(val)` -/
+def mkAlgebraic (tag : String) : Prog Nid := create ⟨NT.ALGEBRAIC_CONSTANT, [], .alg tag⟩
+
 def mkStrConcat (args : List Nid) : Prog Nid :=
   if args.length ≤ 1 then failP .typeError else create ⟨NT.STR_CONCAT, args, .none⟩
 
@@ -784,7 +803,8 @@ def mkBV (v : BvVal) (width : Option Nat) : Prog Nid :=
     match width with
     | none => failP .valueError
     | some w =>
-      if n < 0 then failP .valueError
+      if w = 0 then failP .valueError
+      else if n < 0 then failP .valueError
       else if n ≥ 2 ^ w then failP .valueError
       else create ⟨NT.BV_CONSTANT, [], .bv n.toNat w⟩
   match v with
@@ -801,7 +821,7 @@ def mkBV (v : BvVal) (width : Option Nat) : Prog Nid :=
   | .other =>
     match width with
     | none => failP .valueError
-    | some _ => failP .typeError
+    | some w => if w = 0 then failP .valueError else failP .typeError
 
 def mkSBV (v : BvVal) (width : Option Nat) : Prog Nid :=
   match v with
@@ -815,6 +835,40 @@ def mkSBV (v : BvVal) (width : Option Nat) : Prog Nid :=
       else if 0 ≤ n then mkBV (.int n) (some w)
       else mkBV (.int ((2 ^ w : Int) + n)) (some w)
   | _ => mkBV v width
+
+/-- A Python value given as the `width` of a bit-vector constant: `None`, an `int`, or a
+    `bool` / `float` whose numeric value is the integer `n` (`True == 1`, `2.0 == 2`: equal
+    to — and hashing like — the integer, so it would name the same `(value, width)` payload). -/
+inductive PyWidth
+  | none
+  | int (n : Int)
+  | alt (n : Int)
+  deriving DecidableEq, Repr
+
+/-- `BV(value, width)` for any Python `width`: only an `int` is accepted (the width is part
+    of the hash-consing key); a string value fixes the width itself and only compares. -/
+def mkBVpy (v : BvVal) (w : PyWidth) : Prog Nid :=
+  match v, w with
+  | _, .none => mkBV v none
+  | .str x, .int k | .str x, .alt k =>
+    if 0 ≤ k then mkBV (.str x) (some k.toNat)
+    else (match parseBin (bvBody x.toList) with
+          | none => failP .valueError
+          | some _ => failP .valueError)
+  | _, .alt _ => failP .typeError
+  | _, .int k => if k ≤ 0 then failP .valueError else mkBV v (some k.toNat)
+
+/-- `SBV(value, width)` for any Python `width` (the range test precedes the call of `BV`) -/
+def mkSBVpy (v : BvVal) (w : PyWidth) : Prog Nid :=
+  match v, w with
+  | .int _, .none => failP .valueError
+  | .int n, .int k => if k ≤ 0 then failP .valueError else mkSBV (.int n) (some k.toNat)
+  | .int n, .alt k =>
+    if k ≤ 0 then failP .valueError
+    else if n < -(2 ^ (k.toNat - 1) : Int) then failP .valueError
+    else if n > (2 ^ (k.toNat - 1) : Int) - 1 then failP .valueError
+    else failP .typeError
+  | _, _ => mkBVpy v w
 
 def bvw (i : Nid) : Prog Nat :=
   .read fun s => match s.bvWidth i with
@@ -870,11 +924,13 @@ def mkBVExtract (f : Nid) (start : Int) (end_ : Option Int) : Prog Nid := do
 inductive BvArg
   | node (i : Nid)
   | int (n : Int)
+  | other                  -- `bool`, `float`, …: `assert isinstance(right, FNode)` fails
   deriving DecidableEq, Repr
 
 def mkBVShift (nt : Nat) (l : Nid) (r : BvArg) : Prog Nid :=
   match r with
   | .node r => mkBVBin nt l r
+  | .other => failP .assertion
   | .int n => do
     let w ← bvw l
     let r ← mkBV (.int n) (some w)
@@ -887,6 +943,18 @@ def mkBVRot (nt : Nat) (f : Nid) (steps : Int) : Prog Nid := do
 def mkBVExt (nt : Nat) (f : Nid) (inc : Int) : Prog Nid := do
   let w ← bvw f
   create ⟨nt, [f], .nums [(w : Int) + inc, inc]⟩
+
+/-- `BVRol/BVRor/BVZExt/BVSExt(formula, n)` with a Python value that is not an `int`
+    (`bool`, `float`, …; `none` here): `PysmtTypeError`, before the formula is looked at. -/
+def mkBVRotPy (nt : Nat) (f : Nid) (steps : Option Int) : Prog Nid :=
+  match steps with
+  | some n => mkBVRot nt f n
+  | none => failP .typeError
+
+def mkBVExtPy (nt : Nat) (f : Nid) (inc : Option Int) : Prog Nid :=
+  match inc with
+  | some n => mkBVExt nt f n
+  | none => failP .typeError
 
 def mkBVComp (l r : Nid) : Prog Nid := create ⟨NT.BV_COMP, [l, r], .nums [1]⟩
 
@@ -955,13 +1023,25 @@ def flattenPairs : List (Nid × Nid) → List Nid
 def arrayAssignments (addr : Nid → Nat) (default : Nid) (assign : List (Nid × Nid)) : List (Nid × Nid) :=
   (sortByAddr addr assign).filter (fun kv => kv.2 != default)
 
-/-- `Array(idx_type, default, assigned_values)` (formula.py:1092-1114).  `assign` are the
+/-- The loop of `Array` over the sorted keys (formula.py:1114-1127): an index must be a
+    constant (`PysmtValueError`); an assignment equal to the default is dropped, after its
+    index was checked to have the index sort (`PysmtTypeError`) — the type checker never
+    sees it otherwise. -/
+def arrayCheck (s : Mgr) (idxTy : Ty) (default : Nid) : List (Nid × Nid) → Option Err
+  | [] => none
+  | (k, v) :: t =>
+    if !s.isConstant k then some .valueError
+    else if v = default ∧ s.typeOf k ≠ some idxTy then some .typeError
+    else arrayCheck s idxTy default t
+
+/-- `Array(idx_type, default, assigned_values)` (formula.py:1101-1129).  `assign` are the
     items of the Python dict (distinct keys). -/
 def mkArray (addr : Nid → Nat) (idxTy : Ty) (default : Nid) (assign : List (Nid × Nid)) : Prog Nid :=
   .read fun s =>
-    if assign.all (fun kv => s.isConstant kv.1) then
+    match arrayCheck s idxTy default (sortByAddr addr assign) with
+    | some e => .fail e
+    | none =>
       create ⟨NT.ARRAY_VALUE, default :: flattenPairs (arrayAssignments addr default assign), .ty idxTy⟩
-    else .fail .valueError
 
 def pairsOf : List Nid → List (Nid × Nid)
   | k :: v :: t => (k, v) :: pairsOf t
@@ -997,6 +1077,36 @@ def arrayValueGet (addr : Nid → Nat) (s : Mgr) (a idx : Nid) : Except Err Nid 
     match arrayGetC addr c idx with
     | some r => .ok r
     | none => .error .indexError
+
+/-! ### payload-decoding accessors (`fnode.py`) -/
+
+/-- `FNode.symbol_name()` / `symbol_type()` -/
+def Mgr.symbolName (s : Mgr) (i : Nid) : Option String :=
+  match s.content? i with
+  | some ⟨nt, _, .sym n _⟩ => if nt = NT.SYMBOL then some n else none
+  | _ => none
+
+def Mgr.symbolType (s : Mgr) (i : Nid) : Option Ty :=
+  match s.content? i with
+  | some ⟨nt, _, .sym _ t⟩ => if nt = NT.SYMBOL then some t else none
+  | _ => none
+
+/-- `FNode.array_value_assigned_values_map()` (as the list of its items), `array_value_default()`,
+    `array_value_index_type()` -/
+def Mgr.assignedValues (s : Mgr) (i : Nid) : Option (List (Nid × Nid)) :=
+  match s.content? i with
+  | some ⟨nt, _ :: rest, _⟩ => if nt = NT.ARRAY_VALUE then some (pairsOf rest) else none
+  | _ => none
+
+def Mgr.arrayDefault (s : Mgr) (i : Nid) : Option Nid :=
+  match s.content? i with
+  | some ⟨nt, d :: _, _⟩ => if nt = NT.ARRAY_VALUE then some d else none
+  | _ => none
+
+def Mgr.indexType (s : Mgr) (i : Nid) : Option Ty :=
+  match s.content? i with
+  | some ⟨nt, _, .ty t⟩ => if nt = NT.ARRAY_VALUE then some t else none
+  | _ => none
 
 /-! ## `FormulaContextualizer` / `IdentityDagWalker` (formula.py:1125-1196, identitydag.py) -/
 
